@@ -76,6 +76,8 @@ def check(ctx: Ctx) -> None:
     check_family(ctx, 'C19.e', ['Shape', 'Cluster'], floor=5)
     from ..idioms import check_falsy_zero
     check_falsy_zero(ctx, 'C19.f', [SH, CE], floor=3)
+    _check_snapshots(ctx)
+    _check_back_rotation(ctx)
     _check_add_user(ctx)
 
 
@@ -221,6 +223,130 @@ def _check_add_user(ctx: Ctx) -> None:
                       operand='rejection-loop')
 
 
+def _check_snapshots(ctx: Ctx) -> None:
+    """C19.g: a stored copy of the (settable) placement of held sub-objects is not a source of truth."""
+    from ..astutil import stmts_in_order
+    M = ctx.model
+    ctx.rule('C19.g', 'an attribute that stores copies of the settable placement (pos / radius / rotation) of sub-objects the object hands out '
+                      'is never read to compute a result (only to maintain itself): the sub-objects can be moved, the copy cannot follow',
+             floor=1)
+    settable = set()
+    for path in (SH, CE):
+        for c in M.module(path).classes.values():
+            settable |= set(c.setters)
+    for c in M.module(CE).classes.values():
+        fns = [f for f in list(c.methods.values()) + list(c.setters.values()) + list(c.getters.values()) if f.self_name is not None]
+        snap = {}
+        for f in fns:
+            sn = f.self_name
+            for n in ast.walk(f.node):
+                val, attr = None, None
+                if isinstance(n, ast.Assign) and len(n.targets) == 1:
+                    t = n.targets[0]
+                    base = t.value if isinstance(t, ast.Subscript) else t
+                    if is_self_attr(base, sn):
+                        attr, val = base.attr, n.value
+                elif isinstance(n, ast.Call) and isinstance(n.func, ast.Attribute) and n.func.attr in ('append', 'extend', 'insert') \
+                        and is_self_attr(n.func.value, sn) and n.args:
+                    attr, val = n.func.value.attr, n.args[-1]
+                if attr is None or val is None:
+                    continue
+                reads = [x for x in ast.walk(val) if isinstance(x, ast.Attribute) and isinstance(x.ctx, ast.Load) and x.attr in settable
+                         and isinstance(x.value, ast.Name) and x.value.id != sn]
+                if reads:
+                    snap.setdefault(attr, []).append(norm(reads[0]))
+        for attr, srcs in sorted(snap.items()):
+            construct = '%s.%s' % (c.name, attr)
+            ctx.instance('C19.g', construct)
+            readers = []
+            for f in fns:
+                sn = f.self_name
+                for st in stmts_in_order(f):
+                    if isinstance(st, (ast.If, ast.For, ast.While, ast.Try, ast.With, ast.FunctionDef, ast.ClassDef)):
+                        heads = [getattr(st, 'test', None), getattr(st, 'iter', None)]
+                        nodes = [x for h in heads if h is not None for x in ast.walk(h)]
+                    else:
+                        nodes = list(ast.walk(st))
+                        # a statement that stores to the very attribute maintains the copy
+                        maintains = any((isinstance(x, (ast.Attribute,)) and isinstance(x.ctx, ast.Store) and is_self_attr(x, sn) == attr) or
+                                        (isinstance(x, ast.Subscript) and isinstance(x.ctx, ast.Store) and is_self_attr(x.value, sn) == attr) or
+                                        (isinstance(x, ast.Call) and isinstance(x.func, ast.Attribute) and x.func.attr in ('append', 'extend', 'insert', 'clear')
+                                         and is_self_attr(x.func.value, sn) == attr) for x in nodes)
+                        if maintains:
+                            continue
+                    for x in nodes:
+                        if isinstance(x, ast.Attribute) and isinstance(x.ctx, ast.Load) and is_self_attr(x, sn) == attr:
+                            readers.append((f, x))
+            ctx.obligation('C19.g', construct, not readers, {'copy_of': sorted(set(srcs))[:3], 'read_in': sorted({f.qualname for f, _ in readers})},
+                           nontrivial=True)
+            for f, n in readers[:1]:
+                ctx.violation('C19.g', f.qualname, 'reads self.%s, a stored copy of `%s`: the cells are handed out and their placement is '
+                              'settable, so after a cell was moved the result is computed from its OLD position' % (attr, srcs[0]),
+                              f.path, n.lineno, operand='snapshot:' + attr)
+
+
+def _check_back_rotation(ctx: Ctx) -> None:
+    """C19.h: the rectangle test undoes the rotation of the shape on every path, except when the rotation is zero."""
+    M = ctx.model
+    ctx.rule('C19.h', 'Rectangle containment: every verdict is reached either after the point was rotated back by -rotation about the centre or '
+                      'on a path on which the rotation is known to be zero (a multiple of 90 degrees swaps the sides of a non-square rectangle)',
+             floor=1)
+    fn = M.func(SH, 'Rectangle.is_point_inside_shape')
+    sn = fn.self_name or 'self'
+    ctx.instance('C19.h', fn.qualname)
+
+    def rot_expr(e: ast.AST) -> bool:
+        while isinstance(e, ast.Call) and norm(e.func) in ('np.real', 'float', 'abs', 'np.abs') and e.args:
+            e = e.args[0]
+        return is_self_attr(e, sn) in ('rotation', '_rotation')
+
+    def classify(t: ast.AST):
+        """('ne'|'eq'|'weak', ...) for tests on the rotation: R != 0 / R == 0 / R % k != 0 with k not a multiple of 360"""
+        if rot_expr(t):
+            return 'ne'
+        if isinstance(t, ast.Compare) and len(t.ops) == 1 and isinstance(t.comparators[0], ast.Constant) and t.comparators[0].value == 0:
+            l, op = t.left, t.ops[0]
+            kind = 'ne' if isinstance(op, ast.NotEq) else ('eq' if isinstance(op, ast.Eq) else None)
+            if kind is None:
+                return None
+            if rot_expr(l):
+                return kind
+            if isinstance(l, ast.BinOp) and isinstance(l.op, ast.Mod) and rot_expr(l.left) and isinstance(l.right, ast.Constant):
+                k = l.right.value
+                if isinstance(k, (int, float)) and k != 0 and k % 360 == 0:
+                    return kind
+                return 'weak-' + kind
+        return None
+
+    def mentions_rotation(t: ast.AST) -> bool:
+        return any(is_self_attr(x, sn) in ('rotation', '_rotation') for x in ast.walk(t))
+
+    def is_back_rotation(c: ast.Call) -> bool:
+        return norm(c.func).endswith('calc_rotated_pos') and len(c.args) == 2 and isinstance(c.args[1], ast.UnaryOp) \
+            and isinstance(c.args[1].op, ast.USub) and rot_expr(c.args[1].operand)
+
+    it = FlagInterp(fn, ExcHierarchy(M), test_rules=[
+        (lambda t: classify(t) == 'ne', ['rot-nonzero'], ['rot-zero']),
+        (lambda t: classify(t) == 'eq', ['rot-zero'], ['rot-nonzero']),
+        (lambda t: (classify(t) or '').startswith('weak-'), [], []),
+        (lambda t: not mentions_rotation(t), [], []),
+    ], call_rules=[(is_back_rotation, ['rotated'])], decompose=True)
+    it.run(FlagInterp.start())
+    odd = [norm(a)[:60] for a in it.unrecognised_atoms if mentions_rotation(a)]
+    bad = [el for st, node in it.exits for el in st if 'rotated' not in el and 'rot-zero' not in el]
+    if bad and odd:
+        ctx.error('C19.h: a test on the rotation is not of a recognised form (%s): cannot tell' % odd[:2])
+    if not any(True for k, n, st in it.events if k == 'call'):
+        if bad:
+            pass
+    ok = not bad
+    ctx.obligation('C19.h', fn.qualname, ok, {'verdict_paths': sum(len(st) for st, _ in it.exits), 'paths_without_back_rotation': len(bad)})
+    if not ok:
+        ctx.violation('C19.h', fn.qualname, 'a verdict is returned without undoing the rotation on a path on which the rotation need not be zero '
+                      '(flags %s): for such a rotation the test disagrees with the polygon of the rectangle\'s own vertices'
+                      % sorted(sorted(el) for el in bad)[:2], fn.path, fn.lineno, operand='back-rotation')
+
+
 def synthetic():
     from ..selftest import synthetic_overlay
     from ..report import Ctx as C
@@ -244,6 +370,14 @@ class Box:
 
 
 MUTANTS = [
+    Mutant('rectangle-skips-back-rotation-mod-90', SH, 'Rectangle.is_point_inside_shape',
+           [('replace', 'if self.rotation != 0:', 'if self.rotation % 90 != 0:')], r'C19\.h:Rectangle\.is_point_inside_shape'),
+    Mutant('benign-rectangle-always-rotates-back', SH, 'Rectangle.is_point_inside_shape',
+           [('regex', r'    if self\.rotation != 0:\n        (point = [^\n]*)\n', r'    \1\n')], None, benign=True),
+    Mutant('benign-rectangle-mod-360', SH, 'Rectangle.is_point_inside_shape',
+           [('replace', 'if self.rotation != 0:', 'if self.rotation % 360 != 0:')], None, benign=True),
+    Mutant('ratio-or-default', SH, 'Shape.get_border_point',
+           [('regex', r'    if ratio is None:\n        ratio = 1\.0\n', '    ratio = ratio or 1.0\n')], r'C19\.f:Shape\.get_border_point'),
     Mutant('revert-fix-rectangle-ignores-rotation', SH, 'Rectangle.is_point_inside_shape',
            [('regex', r'def is_point_inside_shape\(self, point: complex\) -> bool:\n.*',
              'def is_point_inside_shape(self, point: complex) -> bool:\n    return bool(self._lower_coord.real <= point.real <= self._upper_coord.real and self._lower_coord.imag <= point.imag <= self._upper_coord.imag)')],
